@@ -325,14 +325,14 @@ class Parameters:
             changed = False
             for parameter in expression_parameters:
                 value = self._evaluator(parameter.transformed_expression)
-                if not isinstance(value, (int, float)):
+                if not isinstance(value, (int, float, np.integer)):
                     raise ValueError(
                         f"Expression '{parameter.expression}' of parameter '{parameter.label}' "
                         f"evaluates to non numeric value '{value}'."
                     )
                 if value != parameter.value:
                     changed = True
-                parameter.value = value
+                parameter.value = float(value)
             if not changed:
                 break
 
